@@ -137,6 +137,7 @@ struct World
 {
   Ctx& ctx;
   shared_ptr<ProjDataInfo> pdi;
+  shared_ptr<ProjDataInfo> pdi_full; // the same sampling before its segment range was reduced (source of "larger" fills)
   shared_ptr<ExamInfo> ei;
   Layout L;
   std::vector<float> model;
@@ -454,7 +455,44 @@ struct World
         ctx.count("writes_fill_value");
         break;
       }
-      case 7: { // fill(ProjData) from an in-memory source with different content
+      case 7: { // fill(ProjData) from a source with different content: same geometry in memory, or a source with MORE segments
+        if (pdi_full->get_num_segments() > pdi->get_num_segments() && ctx.rng.coin(0.7))
+          {
+            // (documented: "requires at least the same segment numbers (but the source can have more)"), in memory or on file
+            Layout LF;
+            LF.init(*pdi_full);
+            shared_ptr<ProjData> big;
+            const bool big_on_file = ctx.rng.coin(0.4);
+            if (big_on_file)
+              big.reset(new ProjDataInterfile(ei, pdi_full, ctx.tmpdir + "/c02_big_" + std::to_string(ctx.idx) + "_" + std::to_string(op) + ".hs",
+                                              std::ios::in | std::ios::out | std::ios::trunc));
+            else
+              big.reset(new ProjDataInMemory(ei, pdi_full));
+            std::vector<float> vals(static_cast<size_t>(L.nbins));
+            for (int kk = LF.min_tof; kk <= LF.max_tof; ++kk)
+              for (int ss = LF.min_seg; ss <= LF.max_seg; ++ss)
+                {
+                  SegmentByView<float> seg = big->get_empty_segment_by_view(ss, false, kk);
+                  const bool in_dest = ss >= L.min_seg && ss <= L.max_seg;
+                  for (int vv = LF.min_view; vv <= LF.max_view; ++vv)
+                    for (int aa = LF.minax(ss); aa <= LF.maxax(ss); ++aa)
+                      for (int tt = LF.min_tang; tt <= LF.max_tang; ++tt)
+                        {
+                          // every bin of the source gets its own value; the ones of segments the destination lacks must not show up
+                          const float v = uval(LF.idx(ss, aa, vv, tt, kk));
+                          seg[vv][aa][tt] = v;
+                          if (in_dest)
+                            vals[static_cast<size_t>(L.idx(ss, aa, vv, tt, kk))] = v;
+                        }
+                  if (big->set_segment(seg) != Succeeded::yes)
+                    return fail("set_segment-failed", "larger source");
+                }
+            p.fill(*big);
+            model = vals;
+            ctx.count("writes_fill_projdata");
+            ctx.count(big_on_file ? "writes_fill_from_larger_source_on_file" : "writes_fill_from_larger_source_in_memory");
+            break;
+          }
         ProjDataInMemory src(ei, pdi);
         std::vector<float> vals(static_cast<size_t>(L.nbins));
         for (int kk = L.min_tof; kk <= L.max_tof; ++kk)
@@ -645,12 +683,35 @@ run_case(Ctx& ctx)
       ps2.reduce_segments = ps.reduce_segments;
       w.pdi = vg::make_pdi(sc2, ps2);
     }
+  // segment ranges that are reduced, also asymmetrically (-2..1, 0..2, -1..0 ...): legal for reduce_segment_range; the
+  // unreduced sampling is kept as the geometry of "larger" sources for fill(ProjData) ("the source can have more" segments).
+  // Drawn from a PRNG of its own so that the rest of the case is what it was before this was added.
+  w.pdi_full = w.pdi->create_shared_clone();
+  bool asymmetric = false;
+  {
+    vf::Rng r2(vf::mix3(ctx.seed, static_cast<uint64_t>(ctx.idx), 0xC02A));
+    if (r2.coin(0.35) && w.pdi->get_max_segment_num() >= 1)
+      {
+        int lo = static_cast<int>(r2.range(w.pdi->get_min_segment_num(), 0));
+        const int hi = static_cast<int>(r2.range(0, w.pdi->get_max_segment_num()));
+        // an asymmetric range only for data in memory accessed without the PET symmetries: those relate segment s to -s, and
+        // the Interfile header cannot express such a range (asserted by its reader), so files and symmetries get lo == -hi
+        asymmetric = lo != -hi && r2.coin(0.6);
+        if (!asymmetric)
+          lo = -hi;
+        w.pdi->reduce_segment_range(lo, hi);
+        ctx.desc.add("segment_range_min", lo).add("segment_range_max", hi);
+        ctx.count(lo == -hi ? "cfg_symmetric_reduced_segment_range" : "cfg_asymmetric_segment_range");
+      }
+  }
   w.L.init(*w.pdi);
   if (w.L.nbins > 6000)
     throw vf::Skip("too many bins for a history case");
   w.ei.reset(new ExamInfo(ImagingModality::PT));
   w.model.assign(static_cast<size_t>(w.L.nbins), 0.f);
-  const int backend = static_cast<int>(rng.range(0, 3)); // 0 memory, 1 stringstream, 2 fstream, 3 interfile
+  int backend = static_cast<int>(rng.range(0, 3)); // 0 memory, 1 stringstream, 2 fstream, 3 interfile
+  if (asymmetric)
+    backend = 0;
   // file layout
   w.F.by_view = rng.coin();
   for (int s = w.L.min_seg; s <= w.L.max_seg; ++s)
@@ -758,6 +819,8 @@ run_case(Ctx& ctx)
       {
         w.symm_pet = w.symm_trivial;
       }
+    if (asymmetric)
+      w.symm_pet = w.symm_trivial;
   }
   const char* mode = std::getenv("VERIF_MODE");
   const bool with_oor = mode && std::string(mode) == "oor" && backend != 3;
